@@ -348,6 +348,9 @@ func (e *SupportedPointsExtension) Read(b []byte) (int, error) {
 	if len(b) < e.Len() {
 		return 0, io.ErrShortBuffer
 	}
+	if len(e.SupportedPoints) > 255 {
+		return 0, errors.New("too many supported point formats")
+	}
 	// http://tools.ietf.org/html/rfc4492#section-5.5.2
 	b[0] = byte(extensionSupportedPoints >> 8)
 	b[1] = byte(extensionSupportedPoints)
@@ -637,6 +640,9 @@ func (e *ALPNExtension) Read(b []byte) (int, error) {
 	stringsLength := 0
 	for _, s := range e.AlpnProtocols {
 		l := len(s)
+		if l > 255 {
+			return 0, errors.New("ALPN protocol name too long")
+		}
 		b[0] = byte(l)
 		copy(b[1:], s)
 		b = b[1+l:]
@@ -719,7 +725,10 @@ func (e *applicationSettingsExtension) Read(b []byte, supportedProtocols []strin
 
 	stringsLength := 0
 	for _, s := range supportedProtocols {
-		l := len(s)            // Supported ALPN Length
+		l := len(s) // Supported ALPN Length
+		if l > 255 {
+			return 0, errors.New("ALPS protocol name too long")
+		}
 		b[0] = byte(l)         // Supported ALPN Length in bytes hex: 02 dec: 2
 		copy(b[1:], s)         // copy the Supported ALPN as bytes to the buffer
 		b = b[1+l:]            // set the buffer to the buffer without the Supported ALPN Length and Supported ALPN (so we can continue to the next protocol in this loop)
@@ -1651,6 +1660,9 @@ func (e *RenegotiationInfoExtension) Read(b []byte) (int, error) {
 	}
 
 	dataLen := len(e.RenegotiatedConnection)
+	if dataLen > 255 {
+		return 0, errors.New("renegotiated_connection too long")
+	}
 	extBodyLen := 1 + dataLen
 
 	b[0] = byte(extensionRenegotiationInfo >> 8)
@@ -1811,6 +1823,9 @@ func (e *FakeTokenBindingExtension) Len() int {
 func (e *FakeTokenBindingExtension) Read(b []byte) (int, error) {
 	if len(b) < e.Len() {
 		return 0, io.ErrShortBuffer
+	}
+	if len(e.KeyParameters) > 255 {
+		return 0, errors.New("too many token binding key parameters")
 	}
 	dataLen := e.Len() - 4
 	b[0] = byte(fakeExtensionTokenBinding >> 8)
